@@ -23,6 +23,21 @@ func (fr *Frame) makeMap(st *State, i *ssa.MakeMap) Value {
 func (fr *Frame) mapUpdate(st *State, i *ssa.MapUpdate) {
 	m := fr.get(st, i.Map)
 	val := fr.get(st, i.Value)
+	if fr.anchorsOn() {
+		// a map update is an event cuts can anchor on ("cut before call mapupdate #*"): callarg0 the map,
+		// callarg1 the key, callarg2 the value stored - what a function PUTS into a map can be stated although the
+		// map's contents are not modelled
+		fr.v.lastCallQual = ""
+		st.srcVar["callarg0"], st.srcAdr["callarg0"] = m, false
+		st.srcVar["callarg1"], st.srcAdr["callarg1"] = fr.get(st, i.Key), false
+		st.srcVar["callarg2"], st.srcAdr["callarg2"] = val, false
+		if fr.srcTypes == nil {
+			fr.srcTypes = map[string]types.Type{}
+		}
+		fr.srcTypes["callarg2"] = i.Value.Type() // a struct stored by value: its fields can be named in the cut
+		fr.anchor(st, "beforecall", "mapupdate", -1)
+		fr.anchor(st, "call", "mapupdate", -1)
+	}
 	fr.v.assume("map contents are not modelled: lookups yield arbitrary values, updates are only checked for escaping arguments")
 	if p, ok := m.(*PtrV); ok && p.Obj != nil {
 		if p.Obj.Entry || p.Obj.Escaped {
